@@ -1,4 +1,5 @@
 import Percival.Model.Strto
+import Percival.Spec.FloatNumeral
 /-!
 # Model of libc `strtod` (ISO C 2011 §7.22.1.3) and of IEEE-754 rounding — C16
 
@@ -16,6 +17,7 @@ well (glibc); exact subnormals do not.  The generators stay away from the subnor
 -/
 namespace Percival.Model.Strtod
 open Percival.Spec.Numeral Percival.Spec.Parsenum Percival.Model.Strto
+open Percival.Spec.FloatNumeral (lower isNChar Subject ratPow)
 
 /-- a floating-point datum: `fin neg q` is `(-1)^neg · q` with `q ≥ 0` (so `fin true 0` is -0.0) -/
 inductive Fl
@@ -92,16 +94,11 @@ def toBinary32 : Fl → Fl
 
 /-! ## the subject sequence -/
 
-def lower (c : UInt8) : UInt8 := if 0x41 ≤ c ∧ c ≤ 0x5a then c + 0x20 else c
-
 /-- does `s` start with the lower-case pattern, ignoring case?  returns the rest -/
 def stripCI : List UInt8 → List UInt8 → Option (List UInt8)
   | [], s => some s
   | _ :: _, [] => none
   | p :: ps, c :: cs => if lower c = p then stripCI ps cs else none
-
-def isNChar (c : UInt8) : Bool :=
-  (0x30 ≤ c && c ≤ 0x39) || (0x61 ≤ c && c ≤ 0x7a) || (0x41 ≤ c && c ≤ 0x5a) || c == 0x5f
 
 /-- after `nan`: `( n-char-sequence_opt )` → number of bytes taken (0 if it does not close) -/
 def nanParen : List UInt8 → Nat
@@ -122,64 +119,80 @@ def scanExp (marker : UInt8) : List UInt8 → Int × Nat
     else (0, 0)
   | [] => (0, 0)
 
+/-- optional radix character and the digits after it, continuing the significand `m1`:
+    (significand, digits after the point, 1 if there was a point, rest) -/
+def scanFrac (radix : Nat) (m1 : Nat) : List UInt8 → Nat × Nat × Nat × List UInt8
+  | 0x2e :: t => let (m, n, r) := scanDigits radix m1 0 t; (m, n, 1, r)
+  | r1 => (m1, 0, 0, r1)
+
 /-- mantissa `digits [. digits]` in `radix` followed by an optional exponent:
     (integer significand, digits after the point, exponent, bytes taken); `none` without digits -/
 def scanMantExp (radix : Nat) (marker : UInt8) (s : List UInt8) : Option (Nat × Nat × Int × Nat) :=
   let (m1, n1, r1) := scanDigits radix 0 0 s
-  let (m2, n2, ndot, r2) :=
-    match r1 with
-    | 0x2e :: t => let (m, n, r) := scanDigits radix m1 0 t; (m, n, 1, r)
-    | _ => (m1, 0, 0, r1)
+  let (m2, n2, ndot, r2) := scanFrac radix m1 r1
   if n1 + n2 = 0 then none
   else
     let (ex, nexp) := scanExp marker r2
     some (m2, n2, ex, n1 + ndot + n2 + nexp)
 
-def ratPow (b : Nat) (e : Int) : Rat :=
-  if e ≥ 0 then ((b ^ e.toNat : Nat) : Rat) else 1 / ((b ^ (-e).toNat : Nat) : Rat)
-
-/-- what the subject sequence denotes -/
-inductive Subject
-  | inf
-  | nan
-  | num (q : Rat)          -- exact non-negative value
-  deriving Repr
-
-/-- after white space and sign: (what, bytes taken) -/
-def scanBody (s : List UInt8) : Option (Subject × Nat) :=
+/-- `inf` / `infinity`, ignoring case -/
+def scanInf (s : List UInt8) : Option (Subject × Nat) :=
   match stripCI [0x69, 0x6e, 0x66] s with            -- "inf"
   | some r =>
     match stripCI [0x69, 0x6e, 0x69, 0x74, 0x79] r with   -- "inity"
     | some _ => some (.inf, 8)
     | none => some (.inf, 3)
-  | none =>
+  | none => none
+
+/-- `nan` / `nan(n-char-sequence_opt)`, ignoring case -/
+def scanNan (s : List UInt8) : Option (Subject × Nat) :=
   match stripCI [0x6e, 0x61, 0x6e] s with            -- "nan"
   | some r => some (.nan, 3 + nanParen r)
-  | none =>
-  let hex : Option (Subject × Nat) :=
-    match s with
-    | 0x30 :: x :: t =>
-      if isX x then
-        match scanMantExp 16 0x70 t with
-        | some (m, nfrac, ex, n) => some (.num ((m : Rat) * ratPow 2 (ex - 4 * (nfrac : Int))), 2 + n)
-        | none => none
-      else none
-    | _ => none
-  match hex with
+  | none => none
+
+/-- `0x` + hexadecimal significand + optional binary exponent -/
+def scanHex (s : List UInt8) : Option (Subject × Nat) :=
+  match s with
+  | 0x30 :: x :: t =>
+    if isX x then
+      match scanMantExp 16 0x70 t with
+      | some (m, nfrac, ex, n) => some (.num ((m : Rat) * ratPow 2 (ex - 4 * (nfrac : Int))), 2 + n)
+      | none => none
+    else none
+  | _ => none
+
+/-- decimal significand + optional decimal exponent -/
+def scanDec (s : List UInt8) : Option (Subject × Nat) :=
+  match scanMantExp 10 0x65 s with
+  | some (m, nfrac, ex, n) => some (.num ((m : Rat) * ratPow 10 (ex - (nfrac : Int))), n)
+  | none => none
+
+/-- after white space and sign: (what, bytes taken).  `0x` without a hexadecimal significand falls
+    back to the decimal numeral `0`. -/
+def scanBody (s : List UInt8) : Option (Subject × Nat) :=
+  match scanInf s with
   | some r => some r
   | none =>
-    match scanMantExp 10 0x65 s with
-    | some (m, nfrac, ex, n) => some (.num ((m : Rat) * ratPow 10 (ex - (nfrac : Int))), n)
-    | none => none
+  match scanNan s with
+  | some r => some r
+  | none =>
+  match scanHex s with
+  | some r => some r
+  | none => scanDec s
 
-/-- `strtod(s, &end)`: (value as binary64 datum, `end - s`, errno left by the call) -/
-def strtod (s : List UInt8) : Result Fl :=
+/-- the subject sequence: (negative?, what it denotes, offset of the first unconsumed byte) -/
+def scanF (s : List UInt8) : Option (Bool × Subject × Nat) :=
   let ws := s.takeWhile isSpace
   let (neg, nsign, s2) := scanSign (s.dropWhile isSpace)
   match scanBody s2 with
+  | none => none
+  | some (sub, n) => some (neg, sub, ws.length + nsign + n)
+
+/-- `strtod(s, &end)`: (value as binary64 datum, `end - s`, errno left by the call) -/
+def strtod (s : List UInt8) : Result Fl :=
+  match scanF s with
   | none => { val := .fin false 0, endOff := 0, errno := .ok }
-  | some (sub, n) =>
-    let endOff := ws.length + nsign + n
+  | some (neg, sub, endOff) =>
     match sub with
     | .inf => { val := .inf neg, endOff, errno := .ok }
     | .nan => { val := .nan, endOff, errno := .ok }
